@@ -43,7 +43,7 @@ def run(rep, tier, seed):
         if tier == 'quick':
             chk.check('chk', gen_consts(2, 2), invariants=INVS)
             ex = chk.generate('table', gen_consts(2, 1), cassettes=('memory',), n_conc=1, all_paths=True, cap=60000)
-            chk.generate('tworuns', gen_consts(1, 2, Ends=['ret'], InCalls=[('ia2', 1)], InFaults=['none', 'prepFail', 'keyFail'],
+            chk.generate('tworuns', gen_consts(1, 2, Ends=['ret'], InCalls=[('ia2', 2)], InFaults=['none', 'prepFail', 'keyFail'],
                                                Classes=[c for c in classes() if c['rate'] in ('frac', 'zero')]),
                          cassettes=('memory',), n_conc=1, all_paths=True, cap=40000)
             long_histories(rep, seed, n=2500)
